@@ -243,7 +243,9 @@ Proof.
       { apply (M5_merge hs he m1 m3 bc1 pre hc nx post' _ HM1 Hnxnot); fold a; fold nsz; unfold m3.
         - mm. reflexivity.
         - mm. reflexivity.
-        - intros w W1 W2. mm. reflexivity. }
+        - intros w W1 W2 _ _. mm. reflexivity.
+        - rewrite <- (unlink_own_unused _ _ _ _ _ _ _ _ HM Hbi Hnext). fold m1.
+          apply is_used_frame; mm; try reflexivity; unfold nsz; lia. }
       rewrite Hfree in HM3. set (h2 := mkchunk a nsz false) in *.
       assert (Hh2in : In h2 (pre ++ h2 :: post')) by (apply in_or_app; right; left; reflexivity).
       assert (Hh2not : forall i, 0 <= i < BIN_COUNT -> ~ In (c_addr h2) (bin_nth (bins_remove bins_a (get_bin_index (c_sz nx)) (c_addr nx)) i)).
@@ -372,27 +374,16 @@ Proof.
         - rewrite bin_nth_upd_same in Hc by assumption. destruct (mi_good _ _ _ _ _ _ HM) as [Hg _]. destruct (Hg _ Hbi) as [Hnd _].
           apply (remove_addr_in pva _ a Hnd) in Hc. tauto.
         - rewrite bin_nth_upd_other in Hc by lia. exact Hc. }
-      assert (HM3 : MI hs he m3 bc1 (pre0 ++ mkchunk pva nsz (c_used pv) :: post) ba1).
-      { apply (M5_merge hs he m1 m3 bc1 pre0 pv x post ba1 HM1' Hxnot1); fold pva; fold nsz; unfold m3.
-        - mm. reflexivity.
-        - mm. reflexivity.
-        - intros w W1 W2. mm. reflexivity. }
-      rewrite Eupv in HM3. set (pv' := mkchunk pva nsz false) in *.
-      (* the two scrubbing writes hit no header word *)
+      (* M5: pv absorbs x; the two scrubbing writes clear the used mark of the absorbed header *)
       set (m5 := mset (mset m3 (a + 16) 0) (a + 24) 0).
-      assert (HM5 : MI hs he m5 bc1 (pre0 ++ pv' :: post) ba1).
-      { apply (MI_ext hs he m3 m5 bc1 _ ba1 HM3). intros h k Hh Hk.
-        assert (Hhb : h + 32 <= pva \/ h = pva \/ a + 32 <= h).
-        { destruct Hh as [Hh | ->].
-          - apply in_map_iff in Hh. destruct Hh as (z & <- & Hz).
-            pose proof (mi_tiled _ _ _ _ _ _ HM3) as Ht3. destruct (tiled_mid _ _ _ _ _ Ht3) as (m0 & _ & Em0 & _ & _ & Hq1 & Hq2).
-            cbn [c_addr c_sz pv'] in *. subst m0.
-            destruct (in_mid_cases z pv' pre0 post Hz) as [-> | [Hz' | Hz']].
-            + right. left. reflexivity.
-            + destruct (Hq1 z Hz') as (? & ? & ?). left. lia.
-            + destruct (Hq2 z Hz') as (? & ? & ?). right. right. unfold nsz in *. lia.
-          - right. right. lia. }
-        unfold m5. mm. reflexivity. }
+      assert (HM5 : MI hs he m5 bc1 (pre0 ++ mkchunk pva nsz (c_used pv) :: post) ba1).
+      { destruct (chunk_bounds hs he _ Ht Hal x Hxin) as (_ & Hx2 & _).
+        apply (M5_merge hs he m1 m5 bc1 pre0 pv x post ba1 HM1' Hxnot1); fold pva; fold nsz; fold a; unfold m5, m3.
+        - mm. reflexivity.
+        - rewrite !mget_mset_other by (unfold nsz; lia). mm. reflexivity.
+        - intros w W1 W2 W3 W4. mm. reflexivity.
+        - unfold is_used, n_next. mm. reflexivity. }
+      rewrite Eupv in HM5. set (pv' := mkchunk pva nsz false) in *.
       (* the tail *)
       assert (Hpvnot : forall j, 0 <= j < BIN_COUNT -> ~ In (c_addr pv') (bin_nth ba1 j)).
       { cbn [c_addr pv']. apply not_in_after_remove; try assumption. apply (mi_good _ _ _ _ _ _ HM). }
